@@ -43,6 +43,7 @@ type storeView struct {
 
 func (v *storeView) UpdateData(sm *swap.SwapStateMachine) error {
 	v.life.Op(true)
+	v.life.NoteStore()
 	if v.s.w.ShouldFail(v.s.Node, "store.update") {
 		return errors.New("store: write failed (injected)")
 	}
